@@ -128,25 +128,38 @@ impl<T: ZeroCopy + DeserializeInner, const N: usize> DeserializeHelper<Zero> for
     }
 }
 
+/// Drops the first `init` items of a partially initialized array, unless it
+/// is forgotten.
+struct PartialArrayGuard<T> {
+    ptr: *mut T,
+    init: usize,
+}
+
+impl<T> Drop for PartialArrayGuard<T> {
+    fn drop(&mut self) {
+        // SAFETY: the first `init` items have been initialized
+        unsafe { core::ptr::drop_in_place(core::ptr::slice_from_raw_parts_mut(self.ptr, self.init)) };
+    }
+}
+
 impl<T: DeepCopy + DeserializeInner, const N: usize> DeserializeHelper<Deep> for [T; N] {
     type FullType = Self;
     type DeserType<'a> = [<T as DeserializeInner>::DeserType<'a>; N];
     #[inline(always)]
     fn _deserialize_full_inner_impl(backend: &mut impl ReadWithPos) -> deser::Result<Self> {
         let mut res = MaybeUninit::<[T; N]>::uninit();
-        let ptr = res.as_mut_ptr() as *mut T;
+        // Drops the items deserialized so far if a later item fails or panics
+        let mut guard = PartialArrayGuard {
+            ptr: res.as_mut_ptr() as *mut T,
+            init: 0,
+        };
         for i in 0..N {
-            match T::_deserialize_full_inner(backend) {
-                // SAFETY: i < N
-                Ok(item) => unsafe { ptr.add(i).write(item) },
-                Err(e) => {
-                    // SAFETY: the first i items have been initialized; drop
-                    // them, as they would be leaked otherwise.
-                    unsafe { core::ptr::drop_in_place(core::ptr::slice_from_raw_parts_mut(ptr, i)) };
-                    return Err(e);
-                }
-            }
+            let item = T::_deserialize_full_inner(backend)?;
+            // SAFETY: i < N
+            unsafe { guard.ptr.add(i).write(item) };
+            guard.init += 1;
         }
+        core::mem::forget(guard);
         // SAFETY: all items have been initialized
         Ok(unsafe { res.assume_init() })
     }
@@ -155,19 +168,18 @@ impl<T: DeepCopy + DeserializeInner, const N: usize> DeserializeHelper<Deep> for
         backend: &mut SliceWithPos<'a>,
     ) -> deser::Result<<Self as DeserializeInner>::DeserType<'a>> {
         let mut res = MaybeUninit::<<Self as DeserializeInner>::DeserType<'_>>::uninit();
-        let ptr = res.as_mut_ptr() as *mut <T as DeserializeInner>::DeserType<'a>;
+        // Drops the items deserialized so far if a later item fails or panics
+        let mut guard = PartialArrayGuard {
+            ptr: res.as_mut_ptr() as *mut <T as DeserializeInner>::DeserType<'a>,
+            init: 0,
+        };
         for i in 0..N {
-            match T::_deserialize_eps_inner(backend) {
-                // SAFETY: i < N
-                Ok(item) => unsafe { ptr.add(i).write(item) },
-                Err(e) => {
-                    // SAFETY: the first i items have been initialized; drop
-                    // them, as they would be leaked otherwise.
-                    unsafe { core::ptr::drop_in_place(core::ptr::slice_from_raw_parts_mut(ptr, i)) };
-                    return Err(e);
-                }
-            }
+            let item = T::_deserialize_eps_inner(backend)?;
+            // SAFETY: i < N
+            unsafe { guard.ptr.add(i).write(item) };
+            guard.init += 1;
         }
+        core::mem::forget(guard);
         // SAFETY: all items have been initialized
         Ok(unsafe { res.assume_init() })
     }
